@@ -22,7 +22,7 @@ fn("engine/base.py::Connection._invalid_transaction", abstract=True, cls="ConnT"
 fn(R + "_deactivate_from_connection", cls="RootTx", props=["C23", "C27"], returns="none", callees={"util.warn": "noop"},
    ensures=["not self.is_active"], modifies=["self.is_active"])
 
-ENDED = ["self.connection._transaction is not self",
+ENDED = ["implies(not old(self.is_active), not self.is_active)", "self.connection._transaction is not self",
          "implies(old(self.is_active) or try_deactivate, not self.is_active)".replace("try_deactivate", "TD")]
 fn(R + "_close_impl", cls="RootTx", props=["C23", "C27"], types={"try_deactivate": "bool"}, returns="none",
    ensures=[c.replace("TD", "try_deactivate") for c in ENDED] + ["not self.is_active"],
@@ -53,3 +53,19 @@ fn(R + "__init__", cls="RootTx", props=["C23", "C27"], returns="none", assume_re
    # a failing BEGIN leaves the connection without a transaction object
    exc_ensures={"BaseException": ["connection._transaction is None"]},
    modifies=["self.connection", "self.is_active", "connection._transaction"])
+
+# ---- the public end-of-life operations of a root transaction: thin wrappers whose `assert not self.is_active` (in a finally
+# block, i.e. on every exit) is discharged from the contracts above
+for _n in ("_do_close", "_do_rollback"):
+    fn(R + _n, cls="RootTx", props=["C23", "C27"], returns="none", ensures=["not self.is_active", "self.connection._transaction is not self"],
+       may_raise={"BaseException": "True"}, exc_ensures={"BaseException": ["self.connection._transaction is not self", "not self.is_active"]},
+       modifies=["self.is_active", "self.connection._transaction", "any._nested_transaction", "self.connection._nested_transaction.is_active"])
+    _pc.CLASSES["RootTx"].methods[_n] = R + _n
+TR = "engine/base.py::Transaction."
+for _n, _callee in (("close", "_do_close"), ("rollback", "_do_rollback"), ("commit", "_do_commit")):
+    fn(TR + _n + "#root", cls="RootTx", props=["C23", "C27"], returns="none",
+       ensures=["not self.is_active", "self.connection._transaction is not self"],
+       may_raise={"BaseException": "True"},
+       # whatever happens, the transaction is over afterwards
+       exc_ensures={"BaseException": ["not self.is_active"]},
+       modifies=["self.is_active", "self.connection._transaction", "any._nested_transaction", "self.connection._nested_transaction.is_active"])
